@@ -29,7 +29,7 @@ RULE = ("one case = one lattice point (all axis values); non-trivial = m >= 2, o
         "of the channels, or the number of reference columns differs from the number of rows; distinct by lattice index")
 ASSUMPTIONS = [
     "numpy linear algebra (SVD for the guards, exp for the closed-form response) is the trusted base of the model side",
-    "guards (cond of the true observability blocks, of the true state sequence, modal participation) are computed from the true system only",
+    "guards (cond of the true observability blocks cO, cR, of the true state sequence cX, their product kappa = cO*cR*cX^2 <= 1e7, modal participation) are computed from the true system only",
     "hard criteria are neutralised through the hc run parameter (conj False, xi_max 10, mpc_lim 0, mpd_lim 1e9): criteria are C09's business",
     "tolerances 1e-7 (fn, lambda), 1e-6 (xi), 1e-9 (1-MAC): decades above the worst rounding error observed, decades below any structural fault",
     "quick tier: damping profile, fs, record length and block-row offset are assigned to the primary cells by a fixed rotation that covers every combination; thorough: full product",
@@ -42,7 +42,7 @@ FS_ALL = (1.0, 100.0, 1000.0)
 N_ALL = (800, 1500)
 BRO_ALL = (0, 1, 3)
 METHODS = ("cov_mm", "dat")
-GUARD = {"cO": 1e6, "cR": 1e6, "cX": 1e4, "part": 1e-3, "cG": 1e6}
+GUARD = {"cO": 1e6, "cR": 1e6, "cX": 1e4, "part": 1e-3, "cG": 1e6, "cOcG": 1e7, "kappa": 1e7}
 # problem class reported by compare_poles / compare_modes -> violation class (first match in this order names the key)
 CLASSES = (("raises", "raises"), ("table-shape", "layout"), ("shape-dim", "layout"), ("mpe-type", "layout"),
            ("mpe-shape", "layout"), ("count", "poles"), ("pairing", "poles"), ("lam", "poles"), ("fn", "poles"),
@@ -167,8 +167,10 @@ def _column(S, Lam, Fn, Xi, Phi, om, rows=None):
     o = 2 * S.m
     Lam, Fn, Xi, Phi = (np.asarray(x) for x in (Lam, Fn, Xi, Phi))
     nrow = S.l if rows is None else len(rows)
-    if Fn.shape != (om, om + 1) or Xi.shape != Fn.shape or Lam.shape != Fn.shape or Phi.shape != (om, om + 1, nrow):
-        return [("table-shape", f"tables Fn{Fn.shape} Xi{Xi.shape} Lambds{Lam.shape} Phi{Phi.shape}, expected ({om},{om + 1}[,{nrow}])")], {}
+    if (Fn.ndim != 2 or Fn.shape[1] <= o or Xi.shape != Fn.shape or Lam.shape != Fn.shape
+            or Phi.shape != Fn.shape + (nrow,)):
+        return [("table-shape", f"tables Fn{Fn.shape} Xi{Xi.shape} Lambds{Lam.shape} Phi{Phi.shape}: expected equal (poles, orders) "
+                                f"layouts with a column for order {o} (ordmax {om}) and {nrow} shape components")], {}
     return T.compare_poles(S, Lam[:, o], Fn[:, o], Xi[:, o], Phi[:, o, :], rows=rows)
 
 
@@ -199,7 +201,9 @@ def run_decay(t, case, seed):
     for k in ("cO", "cR", "cX"):
         t.err(f"guard.{k}", g[k])
     t.err("guard.1/part", 1.0 / g["part"])
-    if g["cO"] > GUARD["cO"] or g["cR"] > GUARD["cR"] or g["cX"] > GUARD["cX"] or g["part"] < GUARD["part"]:
+    t.err("guard.kappa", g["kappa"])
+    if (g["cO"] > GUARD["cO"] or g["cR"] > GUARD["cR"] or g["cX"] > GUARD["cX"] or g["part"] < GUARD["part"]
+            or g["kappa"] > GUARD["kappa"]):
         t.skipped_by_guard += 1
         t.outcomes["guard-reject"] += 1
         return
@@ -287,7 +291,7 @@ def run_exact(t, case, seed):
     cG = T.cond(S.ctrl(G, br + 1))
     t.err("guard.cO", cO)
     t.err("guard.cG", cG)
-    if cO > GUARD["cO"] or cG > GUARD["cG"]:
+    if cO > GUARD["cO"] or cG > GUARD["cG"] or cO * cG > GUARD["cOcG"]:
         t.skipped_by_guard += 1
         t.outcomes["guard-reject"] += 1
         return
@@ -295,7 +299,7 @@ def run_exact(t, case, seed):
     if m >= 2 or r != l:
         t.nontrivial.add(("e", case["idx"]))
     H = S.hankel_exact(None, G, br)
-    rank = int(np.linalg.matrix_rank(H, tol=1e-9 * np.linalg.norm(H, 2)))
+    rank = int(np.linalg.matrix_rank(H, tol=1e-11 * np.linalg.norm(H, 2)))
     if rank != o:                      # the model itself must deliver what the clause quantifies over
         raise AssertionError(f"exact Hankel product has numerical rank {rank}, expected {o}: {case}")
     try:
